@@ -141,4 +141,42 @@ partly. -/
 example : mergeAxes [(2, 12), (3, 4), (4, 1)] = [(24, 1)] ∧
     mergeAxes [(2, 12), (2, 4), (4, 1)] = [(2, 12), (8, 1)] := by decide
 
+/-! ## `squeezed` -/
+
+theorem insertAt_append_length {α : Type} : ∀ (pre xs : List α) (a : α),
+    insertAt (pre ++ xs) pre.length a = pre ++ a :: xs := by
+  intro pre
+  induction pre with
+  | nil => intro xs a; exact insertAt_zero xs a
+  | cons p ps ih => intro xs a; simp only [List.cons_append, List.length_cons, insertAt, ih]
+
+theorem vsafe_filterUnits {m : Bool} {n : Nat} : ∀ (d pre : List (Nat × Nat)),
+    VSafe m (pre ++ d) n → VSafe m (pre ++ d.filter (fun p => p.1 != 1)) n := by
+  intro d
+  induction d with
+  | nil => intro pre h; simpa using h
+  | cons x xs ih =>
+    obtain ⟨s, t⟩ := x
+    intro pre h
+    by_cases h1 : s = 1
+    · subst h1
+      have hf : ((1, t) :: xs).filter (fun p => p.1 != 1) = xs.filter (fun p => p.1 != 1) := by
+        simp [List.filter_cons]
+      rw [hf]
+      apply ih
+      rw [← insertAt_append_length pre xs (1, t)] at h
+      exact vsafe_remove_unit (by simp) h
+    · have hf : ((s, t) :: xs).filter (fun p => p.1 != 1) =
+          (s, t) :: xs.filter (fun p => p.1 != 1) := by
+        simp [List.filter_cons, h1]
+      rw [hf]
+      have := ih (pre ++ [(s, t)]) (by simpa using h)
+      simpa using this
+
+/-- **C06.T2ab** `squeezed` (drop all size-1 dimensions; C09's `Layout.squeezed`) keeps `VSafe`. -/
+theorem c06_T2_squeezed {m : Bool} (v : Layout.View) {n : Nat} (hs : VSafe m v.dims n) :
+    VSafe m (Layout.squeezed v).dims n := by
+  have := vsafe_filterUnits v.dims [] (by simpa using hs)
+  simpa [Layout.squeezed] using this
+
 end RtenVerif.TensorBounds
